@@ -157,7 +157,12 @@ def starred_format(text, args):
         out.append(("lit", text[pos:m.start()]))
         pos = m.end()
         if ai < len(flat) and flat[ai][0] == "one":
-            out.append(("expr", flat[ai][1]))
+            a_ = flat[ai][1]
+            inner = fmt_parts(a_) if isinstance(a_, ast.JoinedStr) or _is_format_call(a_) or (isinstance(a_, ast.Constant) and isinstance(a_.value, str)) else None
+            if inner is not None:
+                out.extend(inner)
+            else:
+                out.append(("expr", a_))
             ai += 1
         else:
             # remaining fields are fed by the starred sequence
@@ -478,6 +483,20 @@ def unroll_const_loops(fn, consts, single=frozenset(), limit=64):
         it = node.iter
         if isinstance(it, ast.Name) and it.id in consts and it.id in single:
             it = consts[it.id]
+        # a constant dict display iterated in its (insertion = written) order: D.items() / D.keys() / D.values() / D
+        view = None
+        if isinstance(it, ast.Call) and isinstance(it.func, ast.Attribute) and it.func.attr in ("items", "keys", "values") and not it.args and not it.keywords:
+            view, it = it.func.attr, it.func.value
+            if isinstance(it, ast.Name) and it.id in consts and it.id in single:
+                it = consts[it.id]
+        if isinstance(it, ast.Dict) and all(k is not None for k in it.keys):
+            view = view or "keys"
+            if view == "items":
+                it = ast.Tuple(elts=[ast.Tuple(elts=[k, v], ctx=ast.Load()) for k, v in zip(it.keys, it.values)], ctx=ast.Load())
+            else:
+                it = ast.Tuple(elts=list(it.keys if view == "keys" else it.values), ctx=ast.Load())
+        elif view is not None:
+            return None
         if not isinstance(it, (ast.Tuple, ast.List)) or len(it.elts) > limit or not it.elts:
             return None
         names = [node.target.id] if isinstance(node.target, ast.Name) else (
@@ -599,6 +618,73 @@ class _Fold(ast.NodeTransformer):
             if len(ps) == len(node.args) and not la.vararg and not la.kwarg and not la.kwonlyargs and not la.defaults:
                 return ast.copy_location(_Rename({}, dict(zip(ps, node.args))).visit(copy.deepcopy(node.func.body)), node)
         return node
+
+
+def split_unpacking(fn):
+    """`a, b = (E(x) for x in Y)` (or the list form; one generator, no filter)  ->  `_u1, _u2 = Y; a = E(_u1); b = E(_u2)`"""
+    def fblock(stmts):
+        out = []
+        for s in stmts:
+            if isinstance(s, ast.Assign) and len(s.targets) == 1 and isinstance(s.targets[0], ast.Tuple) and isinstance(s.value, (ast.GeneratorExp, ast.ListComp)) \
+                    and len(s.value.generators) == 1 and not s.value.generators[0].ifs and isinstance(s.value.generators[0].target, ast.Name) \
+                    and all(isinstance(t, ast.Name) for t in s.targets[0].elts) and not s.value.generators[0].is_async:
+                g = s.value.generators[0]
+                _TMP[0] += 1
+                tmps = ["_u%d_%d" % (_TMP[0], i) for i in range(len(s.targets[0].elts))]
+                out.append(ast.copy_location(ast.Assign(targets=[ast.Tuple(elts=[ast.Name(id=t, ctx=ast.Store()) for t in tmps], ctx=ast.Store())], value=g.iter), s))
+                for t, tmp in zip(s.targets[0].elts, tmps):
+                    val = _Rename({}, {g.target.id: ast.Name(id=tmp, ctx=ast.Load())}).visit(copy.deepcopy(s.value.elt))
+                    out.append(ast.copy_location(ast.Assign(targets=[copy.deepcopy(t)], value=val), s))
+                continue
+            out.append(s)
+        return out
+    return _map_blocks(fn, fblock)
+
+
+def materialise_generators(ix, f, fn, keep):
+    """`sep.join(H(v) for v in xs)` where H is an unknown helper with several returns (so it cannot be substituted as an expression):
+    the elements are collected by an explicit loop placed before the statement - `_acc = []; for v in xs: _acc.append(H(v))` - so
+    that the statement inliner can expand H per element.  Only when nothing but names / constants / attribute loads is evaluated in the
+    statement before the join's argument, so that moving the evaluation forward changes nothing."""
+    from .ts import postorder
+
+    def candidate(s):
+        for n in ast.walk(s):
+            if isinstance(n, ast.Call) and isinstance(n.func, ast.Attribute) and n.func.attr == "join" and len(n.args) == 1 and isinstance(n.args[0], (ast.GeneratorExp, ast.ListComp)):
+                g = n.args[0]
+                if len(g.generators) != 1 or g.generators[0].ifs or g.generators[0].is_async:
+                    continue
+                calls = [c for c in ast.walk(g.elt) if isinstance(c, ast.Call) and _resolve_helper(ix, f, c, keep) is not None]
+                multi = [c for c in calls if single_return((getattr(_resolve_helper(ix, f, c, keep), "orig", None) or _resolve_helper(ix, f, c, keep).node))[0] is None]
+                if not multi:
+                    continue
+                for x in postorder(s):
+                    if x is g:
+                        return n, g
+                    if any(x is y for y in ast.walk(g)):
+                        continue
+                    if not isinstance(x, (ast.Name, ast.Constant, ast.Attribute, ast.expr_context)):
+                        break
+        return None
+
+    def fblock(stmts):
+        out = []
+        for s in stmts:
+            c = candidate(s) if isinstance(s, (ast.Return, ast.Assign, ast.Expr)) else None
+            if c is None:
+                out.append(s)
+                continue
+            call, g = c
+            _TMP[0] += 1
+            acc = "_acc%d" % _TMP[0]
+            gen = g.generators[0]
+            out.append(ast.copy_location(ast.Assign(targets=[ast.Name(id=acc, ctx=ast.Store())], value=ast.List(elts=[], ctx=ast.Load())), s))
+            app = ast.Expr(value=ast.Call(func=ast.Attribute(value=ast.Name(id=acc, ctx=ast.Load()), attr="append", ctx=ast.Load()), args=[g.elt], keywords=[]))
+            out.append(ast.copy_location(ast.For(target=gen.target, iter=gen.iter, body=[ast.copy_location(app, s)], orelse=[]), s))
+            call.args[0] = ast.Name(id=acc, ctx=ast.Load())
+            out.append(s)
+        return out
+    return _map_blocks(fn, fblock)
 
 
 def fold_constants(fn, consts, single):
@@ -1047,10 +1133,12 @@ def normal_form(ix, f, keep):
         fn = desugar_match(fn)
         fn = fold_constants(fn, consts, single)
         fn = unroll_const_loops(fn, consts, single)
+        fn = materialise_generators(ix, f, fn, keep)
         fn = inline_function(ix, f, keep=keep, fn=fn)
         fn = desugar_match(fn)
         fn = inline_expressions(ix, f, fn, keep=keep)
         fn = fold_constants(fn, consts, single)
+        fn = split_unpacking(fn)
         fn = propagate_aliases(fn)
         fn = propagate_templates(fn)
         fn = eliminate_temporaries(fn)
